@@ -20,12 +20,12 @@ def S(pid, cat, text, technique, ref, thorough=True):
 
 T = "deterministic simulation: seeded schedule search over the real rsactor+tokio under a gated spawn and a virtual clock; "
 checks = [
- S("C01", "exploration", "Seeded search over sender mixes, capacities, handler durations, clone/drop histories and stop / last-drop endings under many schedules; every message carries a unique id and the history monitor checks at-most-once, rejected-never and accepted-before-stop/last-drop-handled-before-on_stop. Exploration is the right level: the property quantifies over schedules and histories, which are sampled, not enumerated.", T + "unique message ids + history monitor (exactly-once / rejected-never)", "DESIGN.md 5 C01"),
- S("C02", "exploration", "Real-time-order monitor: whenever one send finished before another began (any tasks), handling order must agree; nothing sent after stop() returned is ever handled; everything accepted before stop() was called is handled before on_stop. Capacity-1/2 mailboxes with queued senders are generated on purpose.", T + "invoke/return vs handler-entry ordering monitor", "DESIGN.md 5 C02"),
+ S("C01", "exploration", "Seeded search over sender mixes, capacities, handler durations, clone/drop histories and stop / last-drop endings under many schedules; every message carries a unique id and the history monitor checks at-most-once, rejected-never and accepted-before-stop/last-drop-handled-before-on_stop. Exploration is the right level: the property quantifies over schedules and histories, which are sampled, not enumerated. A few executions of async clients on a real 2-worker runtime under Miri's seeded thread scheduler cover thread interleavings inside what the gate simulator treats as one poll.", T + "unique message ids + history monitor (exactly-once / rejected-never)", "DESIGN.md 5 C01"),
+ S("C02", "exploration", "Real-time-order monitor: whenever one send finished before another began (any tasks), handling order must agree; nothing sent after stop() returned is ever handled; everything accepted before stop() was called is handled before on_stop. Capacity-1/2 mailboxes with queued senders are generated on purpose. (+ a few multi-thread executions under Miri, as for C01.)", T + "invoke/return vs handler-entry ordering monitor", "DESIGN.md 5 C02"),
  S("C03", "exploration", "Replies carry a per-run unique nonce produced inside the handler; an Ok reply must be the nonce its own handler produced before the return; ask_join outputs / join errors are compared with the scripted task. 'Never hangs' is decided at exact global quiescence (nothing runnable, no timer): no ask may be pending on an ended actor, every ask after the end fails.", T + "reply-nonce matching + pending-operation check at exact quiescence", "DESIGN.md 5 C03"),
  S("C04", "fault_enumeration", "A termination-cause x arrival-phase x racing-cause grid (216 cells, every cell visited in each tier) plus random fault profiles; a per-actor lifecycle automaton over the hook events decides order, at-most-once on_stop, no on_stop after panic / failed start, on_stop exactly when the actor ends otherwise, and the killed flag iff a kill was consumed.", T + "cause x phase grid enumeration + per-actor lifecycle automaton", "DESIGN.md 5 C04"),
  S("C05", "fault_enumeration", "Expected JoinHandle value computed from the hook trace (variant, phase, killed, the very error code, journal of every hook that ran) for every cell of the cause x phase grid and random hook-outcome combinations; query methods and consuming conversions compared with the variant's fields on every result, and exhaustively over the finite value space of ActorResult (a table, labelled as such in the evidence).", T + "hook-trace oracle for ActorResult + exhaustive accessor table", "DESIGN.md 5 C05"),
- S("C06", "exploration", "Backlogs of 0..capacity+2 messages at the moment of the kill in every actor phase, repeated kills, kills on dead actors, kill racing stop/drop: kill() must return Ok synchronously, at most one further handler may start, on_stop(killed=true) must follow, leftovers are never handled and their asks fail.", T + "handler-entries-after-kill counter and leftover/ask fate monitor", "DESIGN.md 5 C06"),
+ S("C06", "exploration", "Backlogs of 0..capacity+2 messages at the moment of the kill in every actor phase, repeated kills, kills on dead actors, kill racing stop/drop: kill() must return Ok synchronously, at most one further handler may start, on_stop(killed=true) must follow, leftovers are never handled and their asks fail; on_stop(killed=true) must begin at the virtual instant the hook in progress finished. (+ a few multi-thread executions under Miri, as for C01.)", T + "handler-entries-after-kill counter and leftover/ask fate monitor", "DESIGN.md 5 C06"),
  S("C07", "exploration", "A handle-table model (clone/drop/downgrade/upgrade/erase/as_control/self-clone histories) decides at exact quiescence whether a strong reference remains: unreferenced or stopped actors must have ended via on_stop(killed=false) with all accepted work done; referenced, never-stopped actors must still be running and must answer a probe ask issued after quiescence (including after on_run returned Ok(false)).", T + "handle-table reference model + quiescence + post-quiescence probe", "DESIGN.md 5 C07"),
  S("C08", "exploration", "on_run scripts with known await boundaries and messages arriving before/at/after each boundary (incl. >128-message bursts): no on_run body step may execute while a definitely accepted message or a returned kill is waiting, never after Ok(false), again after Ok(true), and Err leads to on_stop(killed=false) and a failed result.", T + "poll-probe inside scripted on_run vs definite mailbox content", "DESIGN.md 5 C08"),
  S("C09", "exploration", "Occupancy bounds from definite accept/take events (incl. queued stop markers) against the capacity; with a stalled actor exactly `capacity` sends complete and the rest wait; a send with a provably free slot and no other waiter must complete in its first poll; capacity 0 panics with the documented message. The process-wide default (once, non-zero, else 32) is checked by fresh-subprocess configurations.", T + "occupancy monitor + first-poll completion + subprocess configurations", "DESIGN.md 5 C09"),
